@@ -30,6 +30,7 @@ HAZARDS = {
     'dt_whole_passed_on': 'derived-type dummy used by component and passed on whole to a callee that never touches its components',
     'dt_alloc_lbound': 'allocatable member allocated with lower bound 0 and indexed from 0 in the kernel',
     'dt_allocated_inq': 'kernel asks ALLOCATED(member)',
+    'dt_seq_element': 'element of an allocatable component of a dummy as sequence-associated actual in a kernel',
     'dt_func_kw': 'function kernel referenced with a keyword derived-type actual',
     # tb
     'tb_nested_function': 'type-bound function reference (always forced on a nested member a%b%fun(), also direct d%fun())',
@@ -574,7 +575,7 @@ class SigGen:
                 opts.append((o.text, o.path, wr, 'whole'))
                 if seq_ok and a.decl in ('explicit', 'star', 'lb0', 'len') and not o.noseq:
                     lo = '0' if o.lb == 0 else '1'
-                    opts += [(f'{o.text}({lo})', o.path, wr, 'seq')] * 2
+                    opts += [(f'{o.text}({lo})', o.path, wr, 'seqcomp' if (o.comp and r.name != 'driver') else 'seq')] * 2
             for o in c2:
                 jj = rng.choice(['1', 'm', '2'])
                 if jj == '2':
@@ -582,7 +583,7 @@ class SigGen:
                 lo = '0' if o.lb == 0 else '1'
                 opts.append((f'{o.text}(:, {jj})', o.path, wr, 'section'))
                 if seq_ok and a.decl in ('explicit', 'star', 'lb0', 'len') and not o.noseq:
-                    opts += [(f'{o.text}({lo}, {jj})', o.path, wr, 'seq')] * 2
+                    opts += [(f'{o.text}({lo}, {jj})', o.path, wr, 'seqcomp' if (o.comp and r.name != 'driver') else 'seq')] * 2
             if seq_ok and a.decl in ('explicit', 'star', 'lb0', 'len'):
                 for o in objs:
                     if o.text == 'lx':
@@ -591,7 +592,17 @@ class SigGen:
                         opts += [(f'lx2(2, {rng.choice(["1", "m"])})', o.path, wr, 'seqoff')] * 2
             if not opts:
                 return None
+            if f['mode'] in ('dt', 'tb') and self.hz != 'dt_seq_element':
+                # element of a component of a dummy that DerivedTypeArguments turns into an assumed-shape dummy
+                opts = [t for t in opts if t[3] != 'seqcomp']
+                if not opts:
+                    return None
             t = rng.choice(opts)
+            if t[3] == 'seqcomp':
+                t = t[:3] + ('seq',)
+                self.features.add('scalar_element_of_component_in_kernel')
+                if self.hz == 'dt_seq_element':
+                    self.hz_done = True
             if t[3] == 'seqoff':
                 self.features.add('scalar_element_actual_offset')
             if t[3] in ('seq', 'seqoff'):
@@ -979,7 +990,7 @@ class SigGen:
         the construct is isolated from the random part of the program.  Sets self.hz_done.
         """
         hz = self.hz
-        if not hz or self.hz_done or hz.startswith('tb_') or hz in ('dt_func_kw', 'dup_kw', 'dup_two_callers'):
+        if not hz or self.hz_done or hz.startswith('tb_') or hz in ('dt_func_kw', 'dt_seq_element', 'dup_kw', 'dup_two_callers'):
             return
         inner = 'md' if 'mid' in self.types else 'lf'
         innerty = 'mid_t' if 'mid' in self.types else 'leaf_t'
